@@ -54,6 +54,13 @@ def stepLine (fx : Fixes) (st : DState) (line : String) : DState × String :=
     -- `C05.reread_equal`: the image of a well-formed dictionary is always read back
     (st, s!"imagebig {id} MODEL ok")
   | "image" :: id :: rest => (st, s!"image {id} MODEL {Image.handle (input rest)}")
+  | "tokchain" :: id :: len :: w :: c :: _ =>
+    -- a chain lattice (one word `a`, one segmentation): token i carries (i+1)*(w+c); `viterbi_optimal` / `total_cost_prefix`
+    -- on the only path.  The costs stay within 32 bits by the choice of the cases.
+    let r := match len.toNat?, w.toInt?, c.toInt? with
+      | some n, some w, some c => s!"ok {n} {(n : Int) * (w + c)} 1"
+      | _, _, _ => "bad-input"
+    (st, s!"tokchain {id} MODEL {r}")
   | "mapimg" :: id :: rest => (st, s!"mapimg {id} MODEL {MapImage.handle fx.f3 (input rest)}")
   | "csv" :: id :: rest =>
     let inp := input rest
